@@ -46,7 +46,10 @@ class EliminateVariable:
 
     def global_mutations(self, node, input_):
         ops = node[1:]
-        targets = list(filter(lambda n: n.is_leaf(), ops))
+        # Only eliminate symbols. Replacing a constant by another term is no
+        # elimination and cycles with the mutators simplifying constants,
+        # e.g., (= 4 4) -> (= 4 0) -> (= 4 4).
+        targets = list(filter(lambda n: n.is_leaf() and not is_const(n), ops))
         for t in targets:
             for c in ops:
                 if c == t:
